@@ -10,6 +10,7 @@ mod lang;
 mod layout;
 mod limits;
 mod mem;
+mod parsedump;
 mod pipeline;
 mod pool;
 mod proc;
@@ -36,6 +37,7 @@ fn main() -> ExitCode {
         "layout" => layout::run(&args[2..]),
         "limits" => limits::run(&args[2..]),
         "mem" => mem::run(&args[2..]),
+        "parsedump" => parsedump::run(&args[2..]),
         "pipeline" => pipeline::run(&args[2..]),
         "pool" => pool::run(&args[2], &args[3]),
         "proc" => proc::run(&args[2], &args[3]),
